@@ -4,46 +4,6 @@ import MokapotVerif.Lemmas.PinTsvValid
 -/
 namespace Mk
 
-def headOk (fs : List Str) : Bool := (fs.head?.map headNonSpace).getD false
-def lastOk (fs : List Str) : Bool := (fs.getLast?.map lastNonSpace).getD false
-
-theorem edgeOk_eq (fs : List Str) : edgeOk fs = (headOk fs && lastOk fs) := rfl
-
-theorem headOk_fold (sepP : Str) (pre prots post : List Str) (hne : prots ≠ [])
-    (h : headOk (pre ++ prots ++ post) = true) : headOk (pre ++ [joinWith sepP prots] ++ post) = true := by
-  cases pre with
-  | cons p ps => simpa [headOk] using h
-  | nil =>
-    cases prots with
-    | nil => exact absurd rfl hne
-    | cons q qs =>
-      have hq : headNonSpace q = true := by simpa [headOk] using h
-      simpa [headOk] using headNonSpace_joinWith sepP q qs hq
-
-theorem lastOk_fold (sepP : Str) (pre prots post : List Str) (hne : prots ≠ [])
-    (h : lastOk (pre ++ prots ++ post) = true) : lastOk (pre ++ [joinWith sepP prots] ++ post) = true := by
-  rcases List.eq_nil_or_concat post with e | ⟨ps, p, e⟩
-  · subst e
-    rcases List.eq_nil_or_concat prots with e' | ⟨init, g, e'⟩
-    · exact absurd e' hne
-    · rw [List.concat_eq_append] at e'
-      subst e'
-      have hg : lastNonSpace g = true := by
-        simpa [lastOk, List.getLast?_append] using h
-      simpa [lastOk, List.getLast?_append] using lastNonSpace_joinWith sepP init g hg
-  · rw [List.concat_eq_append] at e
-    subst e
-    have key : ∀ X : List Str, (X ++ (ps ++ [p])).getLast? = some p := by
-      intro X; rw [← List.append_assoc]; simp
-    unfold lastOk at h ⊢
-    rw [key] at h ⊢
-    exact h
-
-theorem edgeOk_fold (sepP : Str) (pre prots post : List Str) (hne : prots ≠ [])
-    (h : edgeOk (pre ++ prots ++ post) = true) : edgeOk (pre ++ [joinWith sepP prots] ++ post) = true := by
-  rw [edgeOk_eq, Bool.and_eq_true] at h ⊢
-  exact ⟨headOk_fold sepP pre prots post hne h.1, lastOk_fold sepP pre prots post hne h.2⟩
-
 /-- the row of the converted document -/
 def PinRow.converted (sepP : Str) (r : PinRow) : PinRow :=
   { padL := [], pre := r.pre, prots := [joinWith sepP r.prots], post := r.post, padR := [] }
@@ -62,12 +22,11 @@ theorem PinRow.converted_tsvFields (sepP : Str) (r : PinRow) :
     (r.converted sepP).tsvFields sepP = r.tsvFields sepP := by
   simp [PinRow.tsvFields, PinRow.converted, joinWith]
 
-theorem RowWF.converted {sepC : Char} {idx nCol : Nat} {r : PinRow} (h : RowWF sepC idx nCol r)
-    (sepP : Str) (hp : sepPOk sepC sepP = true) : RowWF sepC idx nCol (r.converted sepP) := by
+/-- the fields of a converted row hold neither the column separator nor a newline -/
+theorem RowWF.tsvFields_ok {sepC : Char} {idx nCol : Nat} {r : PinRow} (h : RowWF sepC idx nCol r)
+    (sepP : Str) (hp : sepPOk sepC sepP = true) : ∀ f ∈ r.tsvFields sepP, sepC ∉ f ∧ '\n' ∉ f := by
   have hp' := (fieldOk_iff sepC sepP).mp hp
-  refine ⟨rfl, rfl, h.pre, by simp [PinRow.converted], h.post, ?_, ?_⟩
   · intro f hf
-    rw [PinRow.converted_fields] at hf
     unfold PinRow.tsvFields at hf
     simp only [List.mem_append, List.mem_singleton] at hf
     rcases hf with (hf | hf) | hf
@@ -83,8 +42,14 @@ theorem RowWF.converted {sepC : Char} {idx nCol : Nat} {r : PinRow} (h : RowWF s
         · exact hp'.2 h'
         · exact (h.fields g (by simp [PinRow.fields, hg])).2 hc
     · exact h.fields f (by simp [PinRow.fields, hf])
-  · rw [PinRow.converted_fields]
-    exact edgeOk_fold sepP r.pre r.prots r.post h.prots h.edge
+
+/-- the converted row is a well-formed PIN row again, provided it does not end with a carriage return -/
+theorem RowWF.converted {sepC : Char} {idx nCol : Nat} {r : PinRow} (h : RowWF sepC idx nCol r)
+    (sepP : Str) (hp : sepPOk sepC sepP = true) (he : edgeOk (r.tsvFields sepP) = true) :
+    RowWF sepC idx nCol (r.converted sepP) := by
+  refine ⟨rfl, rfl, h.pre, by simp [PinRow.converted], h.post, ?_, ?_⟩
+  · rw [PinRow.converted_fields]; exact h.tsvFields_ok sepP hp
+  · rw [PinRow.converted_fields]; exact he
 
 /-- the output of the conversion is the PIN text of the converted document -/
 theorem renderPin_converted (sepC : Char) (sepP : Str) (d : PinDoc) :
@@ -116,15 +81,18 @@ theorem firstTsvRowOk_iff (sepC : Char) (sepP : Str) (d : PinDoc) :
   | cons r rs => simp
 
 theorem DocWF.converted {sepC : Char} {d : PinDoc} (h : DocWF sepC d) (sepP : Str)
-    (hp : sepPOk sepC sepP = true) (hf : firstTsvRowOk sepC sepP d = true) :
+    (hp : sepPOk sepC sepP = true) (hf : firstTsvRowOk sepC sepP d = true)
+    (he : tsvEdgeOk sepP d = true) :
     DocWF sepC (d.converted sepP) := by
   obtain ⟨r, rs, hr, hdd⟩ := (firstTsvRowOk_iff sepC sepP d).mp hf
-  refine ⟨h.sep, rfl, rfl, h.cols, h.edge, h.proteins, ?_, ?_, ?_, ?_⟩
+  have he' : ∀ r ∈ d.rows, edgeOk (r.tsvFields sepP) = true := by
+    simpa [tsvEdgeOk, List.all_eq_true] using he
+  refine ⟨h.sep, rfl, rfl, h.cols, h.edge, h.proteins, ?_, ?_, ?_, ?_, h.sepCR, Or.inl rfl⟩
   · intro x hx; simp [PinDoc.converted] at hx
   · intro r' hr'
     rw [converted_rows] at hr'
     obtain ⟨r0, hr0, rfl⟩ := List.mem_map.mp hr'
-    exact (h.rows r0 hr0).converted sepP hp
+    exact (h.rows r0 hr0).converted sepP hp (he' r0 hr0)
   · right; rw [converted_rows, hr]; simp
   · right
     refine ⟨r.converted sepP, rs.map (PinRow.converted sepP), ?_, ?_⟩
@@ -138,9 +106,7 @@ theorem DocWF.tableOk {sepC : Char} {d : PinDoc} (h : DocWF sepC d) (sepP : Str)
   simp only [List.mem_cons, List.mem_map] at hrow
   rcases hrow with rfl | ⟨r, hr, rfl⟩
   · exact ⟨h.cols_ne_nil, h.cols⟩
-  · have hw := (h.rows r hr).converted sepP hp
-    rw [← PinRow.converted_fields]
-    exact ⟨hw.fields_ne_nil, hw.fields⟩
+  · exact ⟨by simp [PinRow.tsvFields], (h.rows r hr).tsvFields_ok sepP hp⟩
 
 theorem RowWF.tsvFields_length {sepC : Char} {idx nCol : Nat} {r : PinRow} (h : RowWF sepC idx nCol r)
     (sepP : Str) : (r.tsvFields sepP).length = nCol := by
